@@ -425,7 +425,11 @@ func (d *Datastore) TransactionSet(ctx context.Context, transactionId string, tr
 				break
 			}
 			log.Warnf("Transaction: %s - failed to create transaction, retrying: %v", transactionId, err)
+			// The datastore must not stay locked while waiting for the ongoing transaction
+			// to finish, its confirm or cancel would be refused otherwise.
+			d.dmutex.Unlock()
 			time.Sleep(time.Millisecond * 200)
+			d.dmutex.Lock()
 		}
 		if transactionGuard != nil {
 			break
